@@ -202,7 +202,7 @@ impl SigChannel {
                 }
             }
         }
-        for v in 0..6u64 {
+        for v in 0..7u64 {
             ops.push(Op::new(0, S_UNCLAMPED_EXT).arg(v).seed(rng.data_seed()));
         }
         // R given as a non-canonical encoding of the point the equation yields: byte equality must fail
@@ -480,7 +480,8 @@ impl Scenario for SigChannel {
                     // extended secret = scalar (32 bytes, below 2^255, not clamped) || prefix (32 bytes)
                     let mut ext = [0u8; 64];
                     ext.copy_from_slice(&data(op.seed | 16, 64));
-                    match op.arg % 6 {
+                    match op.arg % 7 {
+                        6 => ext[31] = 0x80,                        // top of scalarmult_base's documented range (a[31] <= 0x80)
                         0 => ext[31] &= 0x7f,                       // any scalar below 2^255
                         1 => {
                             // tiny scalar 1..=16 (low bits set: not a multiple of 8)
@@ -513,7 +514,7 @@ impl Scenario for SigChannel {
                     want = true;
                     // the independent model must agree that what the signer produced satisfies the equation
                     if med::verify(&m, &p, &s) != med::Verdict::Accept {
-                        return Err(Violation::new("rejected-honest", i, "a signature satisfying the RFC 8032 equation", "independent model rejects (public key, signature) produced by extended_to_public / signature_extended", format!("ed25519 signing from an unclamped extended secret, class {} (message {} bytes)", op.arg % 6, m.len())));
+                        return Err(Violation::new("rejected-honest", i, "a signature satisfying the RFC 8032 equation", "independent model rejects (public key, signature) produced by extended_to_public / signature_extended", format!("ed25519 signing from an unclamped extended secret, class {} (message {} bytes)", op.arg % 7, m.len())));
                     }
                 }
                 S_TORSION_NONCANONICAL_R => {
